@@ -34,7 +34,7 @@ def gen(rng: random.Random, tier: str, idx: int) -> dict:
     backend = "local" if rng.random() < 0.7 else "s3"
     clock = rng.choice(["fine", "fine", "coarse", "nonmono"])
     skews = [0.0, -5.0, -3600.0, 7.0, -0.5] if clock == "nonmono" else None
-    ops = history.gen_history(rng, props=True, skews=skews)
+    ops = history.gen_history(rng, n_hi=14 if tier == "quick" else 24, props=True, skews=skews)
     faults = []
     if rng.random() < 0.3:
         if backend == "local":
